@@ -202,6 +202,40 @@ Definition run_reload (texts init steps : vl) : vl :=
   | None => VBad
   end.
 
+(* ---- kind 6: the real init_file + refresh thread in lock step (reloader_sleep hook) ----
+   first entry: (0 interval) the thread's first sleep | (1 0) no thread; then per edit
+   (stopped interval-asked-after-the-poll active nset), interval 0 when stopped *)
+Fixpoint thread_polls (parse : list N -> option (N * option N)) (l : loop N) (h : list file) : list vl :=
+  match h with
+  | [] => []
+  | f :: r =>
+    let l' := poll N parse l f in
+    VL [VB (negb (l_running l')); VN (if l_running l' then l_rate l' else 0); VN (r_active (l_st l'));
+        VN (N.of_nat (r_nset (l_st l')))] :: thread_polls parse l' r
+  end.
+
+Definition run_thread (texts init steps : vl) : vl :=
+  match val_list dec_text texts with
+  | Some tb =>
+    match init, val_list (dec_file tb) steps with
+    | VL [VN m0; VN ti0], Some h =>
+      match nth_error tb (N.to_nat ti0) with
+      | Some (b0, _) =>
+        match init_file N (parse_tab tb) (File m0 b0) with
+        | None => VL [VL [VN 2; VN 0]]
+        | Some (c, None) =>
+          VL (VL [VN 1; VN 0] :: map (fun _ => VL [VB true; VN 0; VN c; VN 0]) h)
+        | Some (c, Some l) =>
+          (* the first interval is also the head of `sleeps` *)
+          VL (VL [VN 0; VN (hd 0 (sleeps N (parse_tab tb) l h))] :: thread_polls (parse_tab tb) l h)
+        end
+      | None => VBad
+      end
+    | _, _ => VBad
+    end
+  | None => VBad
+  end.
+
 (* ---- the global facade after each swap (Model/Facade.v = C02's model of the macro) ---- *)
 Fixpoint facade_steps (ost : option Facade.fstate) (cs : list tcfg) (prs : list (str * N)) : list vl :=
   match cs with
@@ -238,5 +272,6 @@ Definition c15_run (v : vl) : vl :=
   | VL [VN 3; _; texts; init; steps; _] => run_reload texts init steps
   | VL [VN 4; _; texts; init; steps; _] => run_reload texts init steps
   | VL [VN 5; cfgs; sq; probes] => run_facade cfgs sq probes
+  | VL [VN 6; _; texts; init; steps; _; _] => run_thread texts init steps
   | _ => VBad
   end.
